@@ -100,8 +100,16 @@ func nearMisses(s string) []string {
 
 func genC11(t *rapid.T) c11Case {
 	s := genC11String(t, "s")
+	if rapid.IntRange(0, 6).Draw(t, "keywordInside") == 0 {
+		// the letters of an operator keyword inside the string
+		rs := []rune(s)
+		at := rapid.IntRange(0, len(rs)).Draw(t, "keywordAt")
+		kw := rapid.SampledFrom([]string{"not", "NOT ", "nOt", "not contains ", "knot", " and ", "or", "in", "contains"}).Draw(t, "keyword")
+		s = string(rs[:at]) + kw + string(rs[at:])
+	}
 	c := c11Case{S: s, Near: nearMisses(s)}
-	c.Op = rapid.SampledFrom([]string{"=", "!=", "in", "notin", "contains", "notcontains", "anyof=", "anyofin", "allof!=", "anyofcontains", "inlong-low", "inlong-high", "notinlong-high"}).Draw(t, "op")
+	c.Op = rapid.SampledFrom([]string{"=", "!=", "in", "notin", "contains", "notcontains", "anyof=", "anyofin", "allof!=", "anyofcontains", "inlong-low", "inlong-high", "notinlong-high",
+		"icontains", "noticontains", "anyof=or-anyofcontains", "anyof=and-anyofin", "anyofin-or-anyofin"}).Draw(t, "op")
 	c.Other = genC11String(t, "other")
 	return c
 }
@@ -146,6 +154,7 @@ func runC11(c c11Case) kit.Result {
 		d.People = append(d.People, kit.Person{ID: fmt.Sprintf("p%02d", i), F: map[string]kit.Val{"sa": kit.SV(v)}, Roles: kit.StrSet{Present: true, Elems: roles}})
 	}
 	d.People = append(d.People, kit.Person{ID: "pnull", F: map[string]kit.Val{"sa": kit.NullV()}, Roles: kit.StrSet{Present: true, Elems: []string{c.S + "x", "zz"}}})
+	d.People = append(d.People, kit.Person{ID: "pboth", F: map[string]kit.Val{"sa": kit.NullV()}, Roles: kit.StrSet{Present: true, Elems: []string{c.S, "zz", "~~~last"}}})
 
 	var filter string
 	var want func(v *string) bool
@@ -178,6 +187,29 @@ func runC11(c c11Case) kit.Result {
 			}
 			return false
 		}
+	case "anyof=or-anyofcontains":
+		// two comparisons on the same set in one filter: each ranges over the whole set
+		filter = "anyOf(roles) = " + quoteZql("~~~last") + " or anyOf(roles) contains " + lit
+		wantSet = func(elems []string) bool {
+			for _, e := range elems {
+				if strings.Contains(e, c.S) {
+					return true
+				}
+			}
+			return has(elems, "~~~last")
+		}
+	case "anyof=and-anyofin":
+		filter = "anyOf(roles) = \"zz\" and anyOf(roles) in [" + lit + "]"
+		wantSet = func(elems []string) bool { return has(elems, "zz") && has(elems, c.S) }
+	case "anyofin-or-anyofin":
+		filter = "anyOf(roles) in [\"nobody has this\"] or anyOf(roles) in [" + lit + ", " + quoteZql(c.Other) + "]"
+		wantSet = func(elems []string) bool { return has(elems, c.S) || has(elems, c.Other) }
+	case "icontains":
+		filter = "sa icontains " + lit
+		want = func(v *string) bool { return v != nil && strings.Contains(strings.ToUpper(*v), strings.ToUpper(c.S)) }
+	case "noticontains":
+		filter = "sa not icontains " + lit
+		want = func(v *string) bool { return v == nil || !strings.Contains(strings.ToUpper(*v), strings.ToUpper(c.S)) }
 	case "=":
 		filter = "sa = " + lit
 		want = func(v *string) bool { return v != nil && *v == c.S }
@@ -289,6 +321,34 @@ func runC11(c c11Case) kit.Result {
 		return nil
 	})
 	res.Err = err
+	if err != nil || want == nil {
+		return res
+	}
+	// route C: an object store whose string accessors hand out pointers into the live objects; a case-insensitive
+	// query over the same objects comes first, then the filter
+	ostore := newObjectStore(d, func() (order []int) {
+		for i := range d.People {
+			order = append(order, i)
+		}
+		return
+	}())
+	if _, _, err := ostore.QueryEntities("sa icontains " + lit + " or sa icontains \"a\""); err != nil {
+		res.Err = fmt.Errorf("object store: case-insensitive query rejected: %v", err)
+		return res
+	}
+	ents, _, err := ostore.QueryEntities(filter)
+	if err != nil {
+		res.Err = fmt.Errorf("object store: filter %s rejected: %v", filter, err)
+		return res
+	}
+	var gotObj []string
+	for _, e := range ents {
+		gotObj = append(gotObj, e.ID)
+	}
+	sort.Strings(gotObj)
+	if fmt.Sprint(gotObj) != fmt.Sprint(expect) {
+		res.Err = fmt.Errorf("filter %s over an object store holding %q (after a case-insensitive query over the same objects): got %v want %v", filter, values, gotObj, expect)
+	}
 	return res
 }
 
